@@ -34,8 +34,9 @@ def tname(t):
 
 class P:
     """provider: text, static type as hidc sees it, byte-coercible int?, array literal element providers"""
-    def __init__(self, name, text, t, shrink=False, lit=None, const_scalar=False):
+    def __init__(self, name, text, t, shrink=False, lit=None, const_scalar=False, locked=None):
         self.name, self.text, self.t, self.shrink, self.lit, self.const_scalar = name, text, t, shrink, lit, const_scalar
+        self.locked = locked
 
 
 SCALARS = [
@@ -72,6 +73,10 @@ ARRAYS = [
     P('lit_bools', '[true, fv]', arr(BOOL, True), lit=['bool_lit', 'bool_var']),
     P('lit_strs', '["a", sv]', arr(STRING, True), lit=['str_lit', 'str_var']),
     P('lit_calls', '[mk_int(), iv + 1]', arr(INT, True), lit=['call_int', 'arith_int']),
+    # an array literal that went through an explicit cast keeps its const flexibility but no longer changes element type
+    P('lit_cast_to_bytes', '[1, 2] is byte[]', arr(BYTE, True), lit=['int_lit', 'int_lit'], locked=BYTE),
+    P('lit_cast_to_ints', "['a', bv] is int[]", arr(INT, True), lit=['char_lit', 'byte_var'], locked=INT),
+    P('lit_cast_to_bools', '[iv, 0] is bool[]', arr(BOOL, True), lit=['int_var', 'int_lit'], locked=BOOL),
 ]
 ALL = SCALARS + ARRAYS
 BY_NAME.update({p.name: p for p in ARRAYS})
@@ -86,6 +91,8 @@ def coercible(p, t, position='arg'):
         # array literal: coercible to any array type all entries can be coerced to, const-flexible
         if not isinstance(t, tuple):
             return False
+        if p.locked is not None:
+            return t[1] == p.locked
         return all(coercible(BY_NAME[e], t[1], 'value') for e in p.lit)
     if p.t == t:
         return True
